@@ -595,6 +595,30 @@ func (e *SEnv) evalCall(n *SCall) Val {
 			delete(e.vars, "self")
 		}
 		return specBool(And(cs...))
+	case "calls": // calls("T.F"): how many times this function body has called the contracted callee so far
+		return specInt(e.r.callsTerm(e.st, n.Args[0].(*SStrL).V))
+	case "calledwith": // calledwith("T.F", i, x): the most recent call of T.F passed x as argument i (false if never called)
+		rec, ok := e.st.lastCall[n.Args[0].(*SStrL).V]
+		if !ok {
+			return specBool(False)
+		}
+		idx, isLit := n.Args[1].(*SIntL)
+		if !isLit || !idx.V.IsInt64() || int(idx.V.Int64()) >= len(rec.args) {
+			sfail("calledwith: bad argument index")
+		}
+		return specBool(e.specEq(rec.args[idx.V.Int64()], e.eval(n.Args[2])))
+	case "lastret": // lastret("T.F"): first result of the most recent call of T.F (false/0 if never called)
+		rec, ok := e.st.lastCall[n.Args[0].(*SStrL).V]
+		if !ok || len(rec.rets) == 0 {
+			return specBool(False)
+		}
+		return rec.rets[0]
+	case "refid": // identity (reference) of a pointer, channel, map or slice value
+		a := e.eval(n.Args[0])
+		if a.T == nil || len(a.C) == 0 {
+			sfail("refid needs a reference value")
+		}
+		return specInt(a.C[0])
 	case "sliceoff": // offset of a slice within its backing array
 		a := e.eval(n.Args[0])
 		if a.T == nil || !isSlice(a.T) {
@@ -747,6 +771,8 @@ type ModTarget struct {
 	Map   *Val
 	All   bool
 	Ghost string
+	Chans bool
+	Arrays types.Type
 }
 
 func (e *SEnv) evalMod(x SExpr) ModTarget {
@@ -793,6 +819,14 @@ func (e *SEnv) evalMod(x SExpr) ModTarget {
 			return ModTarget{Map: &b}
 		case "ghost":
 			return ModTarget{Ghost: n.Args[0].(*SStrL).V}
+		case "chans": // chans(): the open/closed state of channels
+			return ModTarget{Chans: true}
+		case "arrays": // arrays(s): every backing array of s's element type (used when the array is only known under a lock)
+			b := e.eval(n.Args[0])
+			if b.T == nil || !isSlice(b.T) {
+				sfail("arrays() needs a slice")
+			}
+			return ModTarget{Arrays: elemOf(b.T)}
 		case "deref":
 			b := e.eval(n.Args[0])
 			return ModTarget{Place: e.r.placeOf(b), All: true}
